@@ -23,6 +23,8 @@ pub enum Item {
     C05Seeds { base: u64, from: u64, to: u64, digests: bool },
     C05Keys { base: u64, prog: usize, k_from: u64, k_to: u64 },
     C16Enum { prog: usize, kind: String, idx: Vec<usize> },
+    /// every directed delivery variant of one program (both properties)
+    Delivery { prop: String, prog: usize },
     C16Seeds { base: u64, from: u64, to: u64, digests: bool },
     /// explicit worlds run in order in this process (replay, minimisation)
     Worlds { prop: String, worlds: Vec<World>, wall_s: u64 },
@@ -367,6 +369,20 @@ impl Worker {
                     self.world_stats(&w, &r, &mut rm);
                     bump(&mut rm.stats, "dim.keys", 1);
                     self.check_c05_world(&tag, &w, &r, &mut rm);
+                }
+            }
+            Item::Delivery { prop, prog } => {
+                for v in 0..gen::DELIVERY_VARIANTS {
+                    let w = gen::delivery_world(&prop, &self.corpus, prog, v);
+                    let tag = format!("dlv:{}:{}", prog, v);
+                    let r = self.run(&tag, &w);
+                    self.world_stats(&w, &r, &mut rm);
+                    if prop == "C05" {
+                        bump(&mut rm.stats, "dim.directed_delivery", 1);
+                        self.check_c05_world(&tag, &w, &r, &mut rm);
+                    } else {
+                        self.check_c16_world(&tag, &w, &r, &mut rm);
+                    }
                 }
             }
             Item::C16Enum { prog, kind, idx } => {
